@@ -297,12 +297,12 @@ class Run:
                     json.dump(core.jsonable({"property": self.prop, "tier": self.tier, "seed": self.seed,
                                              "case": case, "violation": v}), f, indent=1)
                 replay_paths.append(path)
-                if len(shown) <= 12:
+                if len(shown) <= 6:
                     lines.append("VIOLATION property=%s replay=%s" % (self.prop, os.path.relpath(path, core.VERIF)))
                     lines.append("  monitor=%s key=%s detail=%s" % (v["monitor"], v.get("key"),
                                                                    json.dumps(v.get("detail"))[:300]))
-            if len(shown) > 12:
-                lines.append("  ... %d more violation witnesses under replays/%s" % (len(shown)-12, self.prop))
+            if len(shown) > 6:
+                lines.append("  ... %d more violation witnesses under replays/%s" % (len(shown)-6, self.prop))
 
         status = "violated" if new else ("inconclusive" if self.inconclusive else "held")
         for r in self.inconclusive[:10]:
